@@ -103,9 +103,10 @@ func genC14(r *rand.Rand) *c14Case {
 			}
 		}
 		if t.Proto == "" && r.Intn(6) == 0 { // redirect= and proto= both set the destination: not combined
-			t.Redirect = choose(r, []string{"301,https://new.test/", "302,https://new.test$path", "303,https://$host$path", "abc,https://x/", "301", "301,", "301,a,b"})
+			t.Redirect = choose(r, []string{"301,https://new.test/", "302,https://new.test$path", "303,https://$host$path", "abc,https://x/", "301", "301,", "301,a,b", "301,https://maps.test/?ll=52.5,13.4", "302,https://new.test/a,b$path"})
 			opts = append(opts, "redirect="+t.Redirect)
-			if strings.Count(t.Redirect, ",") != 1 || strings.HasSuffix(t.Redirect, ",") {
+			// the value is <code>,<url>; the url is what follows the first comma and may hold commas of its own
+			if !strings.Contains(t.Redirect, ",") || strings.HasSuffix(t.Redirect, ",") || t.Redirect == "301,a,b" {
 				t.Safe = false
 			}
 		}
@@ -270,7 +271,7 @@ func c14Denotes(d *route.RouteDef, t *c14Tag, cs *c14Case, hostport string) stri
 		wantOpts[k] = v
 	}
 	if t.Redirect != "" {
-		p := strings.Split(t.Redirect, ",")
+		p := strings.SplitN(t.Redirect, ",", 2)
 		if len(p) == 2 {
 			wantDst = p[1]
 			wantOpts["redirect"] = p[0]
